@@ -975,6 +975,12 @@ func ParseCIDR(cidr string) ([]*net.IPNet, error) {
 		if err != nil {
 			return nil, fmt.Errorf("invalid CIDR %q", cidr)
 		}
+		// An IPv4-mapped IPv6 CIDR (::ffff:a.b.c.d/n) is an IPv4 network: keep it
+		// in the 4-byte form so that its prefix length compares with IPv4 CIDRs.
+		if ip4 := n.IP.To4(); ip4 != nil && len(n.Mask) == net.IPv6len {
+			ones, _ := n.Mask.Size()
+			n = &net.IPNet{IP: ip4, Mask: net.CIDRMask(ones-96, 32)}
+		}
 		return []*net.IPNet{n}, nil
 	}
 
